@@ -34,6 +34,9 @@ type c15Case struct {
 	Files   []int      `json:"files"` // indices into the small license files (modulo)
 	Synth   []c15Synth `json:"synth"`
 	Queries []c15Query `json:"queries"`
+	// Decoy: before the archive under test is loaded, another archive is built and loaded in the same process that has
+	// the same file names but different contents (a history: results must not depend on what was loaded earlier).
+	Decoy bool `json:"decoy,omitempty"`
 }
 
 var c15Vocab = strings.Fields("this software license grants rights to use copy modify and distribute the work under terms of version code original provided without warranty liability holder notice conditions following redistribution source binary forms permitted")
@@ -49,7 +52,7 @@ func smallLicenseFiles() []licFile {
 }
 
 func c15Gen(t *rapid.T) interface{} {
-	c := &c15Case{Thr: lib.PickFloat(t, []float64{0.5, 0.8, 0.8, 0.9, 1.0}, "thr")}
+	c := &c15Case{Thr: lib.PickFloat(t, []float64{0.5, 0.8, 0.8, 0.9, 1.0}, "thr"), Decoy: lib.IntN(t, 0, 2, "decoy") == 0}
 	n := lib.IntN(t, 1, 12, "nfiles")
 	c.Files = lib.Ints(t, n, n, 0, 400, "files")
 	ns := lib.IntN(t, 0, 2, "nsynth")
@@ -62,7 +65,7 @@ func c15Gen(t *rapid.T) interface{} {
 	}
 	nq := lib.IntN(t, 2, 6, "nqueries")
 	for i := 0; i < nq; i++ {
-		c.Queries = append(c.Queries, c15Query{Kind: lib.PickStr(t, []string{"file", "edited", "edited", "variant", "concat", "arbitrary"}, "kind"),
+		c.Queries = append(c.Queries, c15Query{Kind: lib.PickStr(t, []string{"file", "edited", "edited", "variant", "concat", "arbitrary", "inserted"}, "kind"),
 			File: lib.IntN(t, 0, 40, "file"), File2: lib.IntN(t, 0, 40, "file2"), Arg: lib.IntN(t, 0, 100, "arg"), Edits: lib.Ints(t, 1, 8, 0, 3000, "edits")})
 	}
 	return c
@@ -106,6 +109,26 @@ func c15QueryText(q c15Query, files []licFile) (string, string) {
 		return "some preface text\n" + editWords(f.Content, q.Edits) + "\nsome trailing text\n", fmt.Sprintf("edited(%d) %s", len(q.Edits), f.Name)
 	case "variant":
 		return variant(f.Content, q.Arg), fmt.Sprintf("%s of %s", variantNames[q.Arg%len(variantNames)], f.Name)
+	case "inserted":
+		// filler words inserted inside the text: every word of the license is still there (token coverage stays
+		// complete) while the edit distance grows, so the confidence sinks below a high threshold
+		w := strings.Fields(f.Content)
+		n := 1 + q.Arg%12
+		var out []string
+		for i, x := range w {
+			out = append(out, x)
+			for _, e := range q.Edits {
+				if len(w) > 0 && i == e%len(w) {
+					for k := 0; k < n; k++ {
+						out = append(out, "qqfiller")
+					}
+				}
+			}
+			if (i+1)%11 == 0 {
+				out = append(out, "\n")
+			}
+		}
+		return "preface\n" + strings.Join(out, " ") + "\ntrailer\n", fmt.Sprintf("%s with %d x %d filler words inserted", f.Name, len(q.Edits), n)
 	case "concat":
 		return f.Content + "\n\nunrelated words in between\n\n" + editWords(g.Content, q.Edits[:1]), "concat " + f.Name + " + " + g.Name
 	}
@@ -132,6 +155,22 @@ func c15Check(ci interface{}) lib.Outcome {
 		known[canonicalName(f.Name)] = true
 	}
 	desc := fmt.Sprintf("archive of %v at threshold %v", names, c.Thr)
+	if c.Decoy {
+		desc += " (after loading an archive with the same file names and other contents)"
+		var decoy []licFile
+		for i, f := range files {
+			w := strings.Fields(f.Content)
+			for l, r := 0, len(w)-1; l < r; l, r = l+1, r-1 {
+				w[l], w[r] = w[r], w[l]
+			}
+			decoy = append(decoy, licFile{f.Name, fmt.Sprintf("decoy %d license software ", i) + strings.Join(w, " ")})
+		}
+		if darch, err := buildArchive(decoy); err == nil {
+			if d, err := lc.New(c.Thr, lc.ArchiveBytes(darch)); err == nil {
+				d.MultipleMatch(decoy[0].Content, true)
+			}
+		}
+	}
 	arch, err := buildArchive(files)
 	if err != nil {
 		return lib.Outcome{Violation: fmt.Sprintf("%s: ArchiveLicenses failed: %v", desc, err)}
@@ -184,13 +223,16 @@ func c15Check(ci interface{}) lib.Outcome {
 				return lib.Outcome{Violation: fmt.Sprintf("%s, query %d (%s): NearestMatch returned %q which is not in the archive", desc, qi, qdesc, na.Name)}
 			}
 		}
-		if q.Kind == "edited" || q.Kind == "concat" {
+		if q.Kind == "edited" || q.Kind == "concat" || q.Kind == "inserted" {
 			edited = true
 		}
 	}
 	classes := []string{}
 	if len(c.Synth) > 0 {
 		classes = append(classes, "with-synthetic-license")
+	}
+	if c.Decoy {
+		classes = append(classes, "after-decoy-archive-with-same-names")
 	}
 	for _, f := range files {
 		if strings.HasSuffix(f.Name, ".header.txt") {
@@ -236,10 +278,84 @@ func tiedAt(files []licFile, thr float64, text, n1, n2 string, conf float64) boo
 	return true
 }
 
+// ---- every license file larger than the 8 KiB cap of the random part, once: archive = {that file + two small ones},
+// queries = the file itself and the file with two words changed (a light fuzzy query: the diff of two nearly identical
+// texts is fast, far from go-diff's deadline).
+
+type c15BigCase struct {
+	File int `json:"file"` // index into the big files
+}
+
+func bigLicenseFiles() []licFile {
+	var out []licFile
+	for _, f := range licenseFiles() {
+		if len(f.Content) > 8*1024 {
+			out = append(out, f)
+		}
+	}
+	return out
+}
+
+func c15BigEnum(yield func(interface{}) bool) {
+	shard, nshards := lib.EnvInt("VERIF_SHARD", 0), lib.EnvInt("VERIF_NSHARDS", 1)
+	for i := range bigLicenseFiles() {
+		if i%nshards != shard {
+			continue
+		}
+		if lib.Tier() != "thorough" && i%3 != 0 && len(bigLicenseFiles()[i].Content) < 30000 {
+			continue // quick: a third of them, and always the very large ones
+		}
+		if !yield(&c15BigCase{File: i}) {
+			return
+		}
+	}
+}
+
+func c15BigCheck(ci interface{}) lib.Outcome {
+	c := ci.(*c15BigCase)
+	big := bigLicenseFiles()
+	small := smallLicenseFiles()
+	f := big[((c.File%len(big))+len(big))%len(big)]
+	files := []licFile{small[c.File%len(small)], f, small[(c.File*7+3)%len(small)]}
+	if files[0].Name == files[2].Name {
+		files = files[:2]
+	}
+	desc := fmt.Sprintf("archive of %s (%d bytes) and two small files", f.Name, len(f.Content))
+	arch, err := buildArchive(files)
+	if err != nil {
+		return lib.Outcome{Violation: fmt.Sprintf("%s: ArchiveLicenses failed: %v", desc, err)}
+	}
+	a, err := lc.New(0.8, lc.ArchiveBytes(arch))
+	if err != nil {
+		return lib.Outcome{Violation: fmt.Sprintf("%s: New(ArchiveBytes) failed: %v", desc, err)}
+	}
+	b, err := referenceLicense(files, 0.8)
+	if err != nil {
+		return lib.Outcome{Skip: "reference-construction-failed"}
+	}
+	queries := []string{f.Content, "preface words\n" + editWords(f.Content, []int{101, 1777}) + "\ntrailing words\n"}
+	for qi, text := range queries {
+		ra, rb := renderMatches(a.MultipleMatch(text, true)), renderMatches(b.MultipleMatch(text, true))
+		if strings.Join(ra, " ") != strings.Join(rb, " ") {
+			return lib.Outcome{Violation: fmt.Sprintf("%s, query %d: MultipleMatch differs\nfrom archive:   %v\nbuilt directly: %v", desc, qi, ra, rb)}
+		}
+		if qi == 0 && len(ra) == 0 {
+			return lib.Outcome{Violation: fmt.Sprintf("%s: the file's own text is not matched at all", desc)}
+		}
+	}
+	return lib.Outcome{Nontrivial: true, Sample: map[string]interface{}{"archive": desc}}
+}
+
+func TestVerif_C15_BigFiles(t *testing.T) {
+	lib.Run(t, lib.Spec{ID: "C15", Part: "big-files",
+		Rule: "every license file larger than 8 KiB (a third of them plus all above 30 KB in quick), each archived together with two small files; queries: the file itself and the file with two words changed; MultipleMatch from the archive-loaded classifier == classifier built directly with fresh search sets",
+		New:  func() interface{} { return &c15BigCase{} }, Enum: c15BigEnum, Check: c15BigCheck, Exhaustive: true})
+}
+
 var _ = stringclassifier.DefaultConfidenceThreshold
 
 func TestVerif_C15(t *testing.T) {
 	lib.Run(t, lib.Spec{ID: "C15", Part: "archive-roundtrip",
-		Rule: "archives of 1-12 license files (<= 8 KiB, drawn order) plus 0-2 synthetic licenses served through the swapped package variable ReadLicenseFile; thresholds {0.5,0.8,0.9,1}; 2-6 queries: a file itself, edited (word deletions/substitutions) in context, presentation variants, concatenations, arbitrary license-word text; oracle: no error, every file found under its own name at 1.0, MultipleMatch lists (both header modes) and NearestMatch identical to a classifier built directly from the normalised texts with fresh search sets, no name outside the archive; non-trivial = more than one file and an edited / concatenated query",
+		Rule: "archives of 1-12 license files (<= 8 KiB, drawn order) plus 0-2 synthetic licenses served through the swapped package variable ReadLicenseFile; thresholds {0.5,0.8,0.9,1}; in a third of the cases a decoy archive with the same file names and other contents is built and loaded first; 2-6 queries: a file itself, edited (word deletions/substitutions) in context, presentation variants, concatenations, arbitrary license-word text; oracle: no error, every file found under its own name at 1.0, MultipleMatch lists (both header modes) and NearestMatch identical to a classifier built directly from the normalised texts with fresh search sets, no name outside the archive; non-trivial = more than one file and an edited / concatenated query",
 		New:  func() interface{} { return &c15Case{} }, Gen: c15Gen, Check: c15Check})
 }
